@@ -211,6 +211,15 @@ def run(ctx):
         judge(ctx, names, pools, bases, hists, wd)
     finally:
         tlc.cleanup(wd)
+    path = os.environ.get("VERIF_C10_DUMPKEYS")       # development aid: every failure key with one example
+    if path:
+        out = {}
+        for key, what, _p in ctx.violations:
+            out.setdefault(key, {"n": 0, "what": what})["n"] += 1
+        for key, what in ctx.known_seen.items():
+            out.setdefault(key, {"n": ctx.extra.get("known_finding_hits", {}).get(key, 0), "what": what, "known": 1})
+        with open(path, "w") as f:
+            json.dump(out, f, indent=1)
     ctx.exhaustive = False
 
 
